@@ -12,6 +12,7 @@ import (
 	"reflect"
 	"runtime"
 	"strings"
+	"syscall"
 	"time"
 )
 
@@ -205,3 +206,8 @@ func Concrete(x int) int { return x }
 // LetTimePass lets every armed timer fire (engine: the recorded callbacks run in arming
 // order; natively: sleep long enough for the library's real timers, all <= 10 ms here).
 func LetTimePass() { time.Sleep(60 * time.Millisecond) }
+
+// DeliverSignal sends signal number n to this process (engine: to every channel registered
+// for it with os/signal.Notify). The harness must itself be registered for the signal, so
+// that the default action (process termination) does not apply.
+func DeliverSignal(n int) { syscall.Kill(os.Getpid(), syscall.Signal(n)) }
